@@ -324,14 +324,11 @@ def run(ck, facts):
             all(x in list(C.walk(ifs[0]["t"])) for x in sets)
     ck.expect(okf and okl, "R3", "get_overridden/filter", "applies overrides whose key starts with `<target>.`", "get_overridden no longer applies exactly the overrides prefixed with `<target>.` to the shared config", C.loc(go))
     # accepted target spellings vs prefixes
-    gen_matches = [n for n in C.walk(C.fn_body(gen)) if n.get("k") == "match" and C.strip(n["s"]).get("k") == "local" and C.strip(n["s"]).get("n") == "target_language"]
+    import c13
     groups = []
-    for n in gen_matches[-1:]:
-        for a in n["arms"]:
-            p = a["pat"]
-            lits = [p["v"]] if p.get("k") == "lit" else [x["v"] for x in p.get("alts", []) if x.get("k") == "lit"]
-            if lits:
-                groups.append(lits)
+    for d_ in c13.gen_dispatch(tool).values():     # the target names gen dispatches on (string-keyed arms, in gen or in the name -> backend table it calls)
+        if d_["group"] not in groups and d_["run"]:
+            groups.append(d_["group"])
     ck.expect(len(groups) >= 7, "R3", "gen/targets", str(groups), "cannot read the accepted target names from gen", C.loc(gen))
     known = {p.rstrip(".") for p in prefixes} if set(prefixes) >= LANGS else known_loose
     # aliases canonicalised before the override step: let target_language = if target_language == "<alias>" { "<canonical>" } else { .. }
